@@ -44,6 +44,15 @@ def history_run(base_seed: int, prop: str, index: int, tier: str, *, nt=None,
     res.avoiding = avoiding
     res.avoided_ops = 0
     w = new_world(cfg, nt)
+    try:
+        return _history_run_body(res, w, cfg, ops_rng, fault_rng, avoiding, avoid, seed, prop,
+                                 index, base_seed, engine)
+    finally:
+        cleanup_world(w)  # scratch files of restart steps, also when the harness fails
+
+
+def _history_run_body(res, w, cfg, ops_rng, fault_rng, avoiding, avoid, seed, prop, index,
+                      base_seed, engine):
     probes = default_probes(cfg)
     ops = []
     res.record = {"seed": seed, "prop": prop, "index": index, "base_seed": base_seed,
@@ -73,7 +82,6 @@ def history_run(base_seed: int, prop: str, index: int, tier: str, *, nt=None,
         for s in w.slots:
             if s is not None:
                 res.states.add(R.digest(canon(s.model.root, w.sym)))
-    cleanup_world(w)
     return res
 
 
